@@ -71,7 +71,7 @@ fn model_req(who: &str, ctx_events: &[String], inst: &Inst, stmt: &Stmt, parts: 
 
 pub fn c04(opts: &Opts, out: &mut Out) {
     let mut rng = chacha(opts.seed, 4);
-    let lat = lattice(opts, if opts.thorough { 256 } else { 64 }, &mut rng);
+    let lat = lattice(opts, if opts.thorough { 256 } else { 128 }, &mut rng);
     let mut kinds = std::collections::BTreeSet::new();
     let mut npert = 0u64;
     for (idx, (n, m, cap, t, class, seeded, kind)) in lat.pts.iter().enumerate() {
